@@ -704,6 +704,23 @@ func c36(c *hx.Ctx) {
 		}
 		got := &bifrost_rpc_access.LookupRpcServiceRequest{}
 		pn, _ = hx.Catch(func() { err = got.UnmarshalComponentID(b58.Encode(buf)) })
+		{
+			// the protobuf decoder must leave its input bytes alone, and the decoded strings must not alias them
+			in := append([]byte{}, buf...)
+			chk := &bifrost_rpc_access.LookupRpcServiceRequest{}
+			if e2 := chk.UnmarshalVT(in); e2 == nil {
+				s1, s2 := chk.GetServiceId(), chk.GetServerId()
+				if string(in) != string(buf) {
+					c.Failf("cid-unmarshal-mutates-input", map[string]any{"bytes": hx.Hex(buf)}, "UnmarshalVT modified its input")
+				}
+				for k := range in {
+					in[k] ^= 0xff
+				}
+				if chk.GetServiceId() != s1 || chk.GetServerId() != s2 {
+					c.Failf("cid-unmarshal-aliases-input", map[string]any{"bytes": hx.Hex(buf)}, "decoded request changed when the input buffer was overwritten")
+				}
+			}
+		}
 		desc2 := map[string]any{"kind": "component-id-decode", "bytes": hx.Hex(buf), "mutation": mut, "err": fmt.Sprint(err)}
 		if pn {
 			c.Failf("cid-unmarshal-panic", desc2, "UnmarshalComponentID panicked")
